@@ -59,6 +59,7 @@ class Fn:
 
     def __init__(self, env, attrs=None, props=None, monadic=True, fuel=None):
         self.env = dict(env)
+        self.args = set(dict(env).keys())
         self.attrs = attrs or {}
         self.props = props or {}
         self.monadic = monadic
@@ -191,6 +192,10 @@ class Fn:
                 return self.with_binds(b, "let %s := %s in\n%s" % (tgt.id, t, self.stmts(rest, k)))
             if isinstance(tgt, ast.Attribute) and isinstance(tgt.value, ast.Name) and tgt.value.id == "self" and tgt.attr in self.attrs:
                 f, fty = self.attrs[tgt.attr]
+                if isinstance(val, ast.Name) and val.id in self.args and fty == "F":
+                    # the model has value semantics: storing the caller's (possibly mutable, reused)
+                    # object itself is not expressible -- the source must store a copy (e.g. 1.*value)
+                    fail(s, "attribute %s stores a reference to the argument `%s` (aliasing)" % (tgt.attr, val.id))
                 t = self.coerce(t, ty, fty, s)
                 return self.with_binds(b, "let self := set_%s self %s in\n%s" % (f, t, self.stmts(rest, k)))
             fail(s, "unsupported assignment target")
